@@ -77,7 +77,7 @@ func scenarioRangeE2E(c *vrun.Ctx) {
 	for _, retry := range []bool{false, true} {
 		env := newEnv(envOpts{Backend: p.Backend, RetryInvalid: retry, Server: true, DefaultMaxAgeS: 3600})
 		for _, size := range []int{1, 10, 36} {
-			for _, ifr := range []string{"none", "etag-match", "etag-other", "lm-equal", "lm-earlier", "lm-later", "garbage", "etag-weakened"} {
+			for _, ifr := range []string{"none", "etag-match", "etag-other", "lm-equal", "lm-earlier", "lm-later", "garbage", "etag-weakened", "weak-stored-same"} {
 				for _, rg := range rangeReps {
 					caseNo++
 					if !c.Mine(caseNo) {
@@ -183,6 +183,9 @@ func runRangeCase(c *vrun.Ctx, env *penv, retry bool, size int, ifr, rg string) 
 	name := "g" + strconv.Itoa(env.seq)
 	lm := vtime.Peek().Add(-24 * time.Hour).Truncate(time.Second)
 	etag := vnet.ETagFor(name, 1)
+	if ifr == "weak-stored-same" {
+		etag = "W/" + etag // the origin's validator is a weak one
+	}
 	env.origin.Put(uri, &vnet.Res{Name: name, Size: size, ETag: etag, LM: lm, Headers: vnet.H{{"Cache-Control", "max-age=600"}, {"Content-Type", "application/x-verif"}}})
 	desc := fmt.Sprintf("retry_on_invalid_range=%v size=%d if-range=%s Range=%q", retry, size, ifr, rg)
 	report := func(kind, msg string) {
@@ -206,6 +209,10 @@ func runRangeCase(c *vrun.Ctx, env *penv, retry bool, size int, ifr, rg string) 
 	case "etag-weakened":
 		// the stored tag is strong; its weak form is another validator (If-Range compares strongly)
 		hs = append(hs, [2]string{"If-Range", "W/" + etag})
+		ifMatchExpected = false
+	case "weak-stored-same":
+		// If-Range compares strongly (RFC 9110 13.1.5 / 8.8.3.2): a weak tag matches nothing, not even itself
+		hs = append(hs, [2]string{"If-Range", etag})
 		ifMatchExpected = false
 	case "etag-other":
 		hs = append(hs, [2]string{"If-Range", `"something-else"`})
